@@ -43,7 +43,7 @@ def hostile_lines(rnd):
         k = rnd.random()
         if k < 0.25:
             v = rnd.choice(VERBS)
-            arg = rnd.choice(["", "x", "../" * 40, "\x00", "a\x00b", "\xff\xfe", "%s%s%n", "A" * 300, " " * 50, "\t", "-1", "9" * 400, "²³", "‮", "a\rb", "(|||99999999|)", "1,2,3,4,5"])
+            arg = rnd.choice(["", "x", "../" * 40, "\x00", "a\x00b", "\xff\xfe", "%s%s%n", "A" * 300, " " * 50, "\t", "-1", "9" * 400, "9" * 5000, "²³", "‮", "a\rb", "(|||99999999|)", "1,2,3,4,5"])
             line = (v + " " + arg).encode("utf-8", "surrogatepass") + b"\r\n"
         elif k < 0.4:
             line = bytes(rnd.getrandbits(8) for _ in range(rnd.randint(1, 40))) + b"\r\n"
